@@ -267,7 +267,42 @@ def gen_lemmas(out_path):
     return log
 
 
-GENERATORS = {"compute": gen_compute, "extract": gen_extract, "lemmas": gen_lemmas}
+def gen_snapshot(out_path):
+    """clock-bound-shm/src/reader.rs: ShmReader::snapshot against an adversarial segment (termination)."""
+    log = []
+    try:
+        src = _read("clock-bound-shm/src/reader.rs")
+        s0, ob, e0 = ex.item(src, r"^impl ShmReader\s*\{", "impl ShmReader")
+        sig, body = ex.fn_parts(src, "snapshot", within=(s0, e0))
+        sig = _named(sig, log, "fn snapshot (signature)", name="res")
+        body, n1 = re.subn(r"unsafe\s*\{\s*&\*self\.(version|generation)\s*\}", r"self.\1.deref_shared()", body)
+        body, n2 = re.subn(r"unsafe\s*\{\s*(self\.ceb_shm\.read_volatile\(\))\s*\}", r"\1", body)
+        if n1 != 2 or n2 != 1:
+            raise ex.ExtractError(f"snapshot: expected 2 atomic dereferences and 1 volatile read, found {n1} and {n2}")
+        log.append({"item": "fn snapshot (body)", "rewrite": "`unsafe { &*self.version }` / `unsafe { &*self.generation }` -> `self.<field>.deref_shared()`",
+                    "count": n1, "why": "Verus has no raw-pointer dereference; the stand-in returns a reference to an atomic whose loads are unconstrained"})
+        log.append({"item": "fn snapshot (body)", "rewrite": "`unsafe { self.ceb_shm.read_volatile() }` -> `self.ceb_shm.read_volatile()`",
+                    "count": n2, "why": "the stand-in's read_volatile is an external function without postcondition (arbitrary record)"})
+        # loop contract spliced between the loop header and its body
+        m = list(re.finditer(r"^([ \t]*)while ([a-z_][a-z0-9_]*) > 0 \{[ \t]*$", body, re.M))
+        if len(m) != 1:
+            raise ex.ExtractError(f"snapshot: expected exactly one `while <counter> > 0 {{` loop, found {len(m)}")
+        ind, var = m[0].group(1), m[0].group(2)
+        body = body[:m[0].start()] + f"{ind}while {var} > 0\n{ind}    invariant {var} <= 1_000_000, self.snapshot_ceb == old(self).snapshot_ceb, self.snapshot_gen == old(self).snapshot_gen,\n{ind}    decreases {var},\n{ind}{{" + body[m[0].end():]
+        log.append({"item": "fn snapshot (body)", "rewrite": f"loop contract `invariant {var} <= 1_000_000, cache unchanged so far; decreases {var}` spliced after the header of `while {var} > 0`",
+                    "count": 1, "why": "inductive invariant / termination measure of the retry loop (the only annotation inside the body)"})
+        parts = {"SIG:shm.snapshot": sig, "BODY:shm.snapshot": body}
+        out = fill(open(os.path.join(VERIF, "verus", "snapshot.rs.tmpl")).read(), parts)
+    except ex.ExtractError as err:
+        raise Undecided("extract", "extraction anchor lost: " + str(err))
+    log.append({"item": "ShmReader / ClockErrorBound / ShmError / atomic::Ordering", "rewrite": "hand-declared stand-ins (only the fields snapshot touches; opaque record)",
+                "count": 1, "why": "the proof is about control flow and termination, not about the record's content"})
+    with open(out_path, "w") as f:
+        f.write(out)
+    return log
+
+
+GENERATORS = {"compute": gen_compute, "extract": gen_extract, "lemmas": gen_lemmas, "snapshot": gen_snapshot}
 
 
 def obligation_map(path):
